@@ -97,6 +97,7 @@ def check_functions(run, rid, prog, funcs, what):
                                    "AttributeError on this path)" % (f.short, ext, what), loc=f.loc(node),
                            sample={"function": f.short, "api": ext})
     n += check_self_attributes(run, rid, prog, funcs, what)
+    n += check_call_arity(run, rid, prog, funcs, what)
     return n
 
 
@@ -209,4 +210,64 @@ def check_self_attributes(run, rid, prog, funcs, what):
                                % (f.short, ", self.".join(missing), f.cls.name, what),
                        loc=f.loc(first) if first is not None else f.loc(),
                        sample={"function": f.short, "attributes_read": len(reads), "class_closed": closed})
+    return n
+
+
+# ----------------------------------------------------------------------
+# arity of calls that resolve exactly to a function of the package
+def check_call_arity(run, rid, prog, funcs, what):
+    """one obligation per function: every call in it that resolves (exactly) to a package function or
+    method supplies all required parameters and no more positional arguments than the callee takes"""
+    n = 0
+    for f in funcs:
+        bad = []
+        ncalls = 0
+        for c in [x for x in walk_no_nested(f.node) if isinstance(x, ast.Call)]:
+            if any(isinstance(a, ast.Starred) for a in c.args) or any(k.arg is None for k in c.keywords):
+                continue
+            try:
+                targets = prog.resolve_call(f, c, may=False)
+            except Exception:
+                targets = []
+            if len(targets) != 1:
+                continue
+            t = targets[0]
+            a = t.node.args
+            params = [x.arg for x in a.posonlyargs + a.args]
+            # bound method / constructor: self is supplied by the call machinery
+            skip_self = t.cls is not None and params and params[0] in ("self", "cls") and \
+                not any(isinstance(d, ast.Name) and d.id == "staticmethod" for d in t.node.decorator_list)
+            if skip_self:
+                # unbound call Class.method(obj, ...) passes self explicitly
+                if isinstance(c.func, ast.Attribute) and isinstance(c.func.value, ast.Name):
+                    from .loader import ClassInfo
+                    if isinstance(prog.resolve_name(f.module, c.func.value.id, f), ClassInfo):
+                        skip_self = False
+            if skip_self:
+                params = params[1:]
+            ndef = len(a.defaults)
+            required = params[:len(params) - ndef] if ndef else list(params)
+            kwonly_req = [x.arg for x, d in zip(a.kwonlyargs, a.kw_defaults) if d is None]
+            given_kw = {k.arg for k in c.keywords}
+            npos = len(c.args)
+            ncalls += 1
+            missing = [p for i, p in enumerate(required) if i >= npos and p not in given_kw] + \
+                      [p for p in kwonly_req if p not in given_kw]
+            extra = npos > len(params) and a.vararg is None
+            unknown_kw = [k for k in given_kw if k not in params and k not in [x.arg for x in a.kwonlyargs]
+                          and a.kwarg is None]
+            if missing or extra or unknown_kw:
+                bad.append((c, t, missing, extra, unknown_kw))
+        if ncalls:
+            n += 1
+            prog.consulted.add(f.relpath)
+            run.obligation(rid, f.short, not bad, key="call-arity",
+                           message="%s: %s" % (what, "; ".join(
+                               "%s calls %s %s" % (norm(c)[:50], t.short,
+                                                   ("without " + ", ".join(ms)) if ms else
+                                                   ("with too many positional arguments" if ex else
+                                                    "with unknown keyword(s) %s" % uk))
+                               for c, t, ms, ex, uk in bad[:2])),
+                           loc=f.loc(bad[0][0]) if bad else f.loc(),
+                           sample={"function": f.short, "resolved_calls": ncalls})
     return n
